@@ -30,7 +30,7 @@ def gen_cfg(rng, real_frac=0.06, allow_long=True, engines=None):
     if real:
         eng = rng.choice(engines or ["basic", "langevin", "xl", "ksa", "xl_damp", "exc_basic", "exc_xl", "sh"])
     else:
-        eng = rng.choice(engines or ["basic", "langevin", "xl", "xl", "ksa", "ksa", "xl_damp"])
+        eng = rng.choice(engines or ["basic", "langevin", "xl", "xl", "ksa", "ksa", "xl_damp", "sh_model", "sh_model"])
         if eng not in mdsim.STUB_OK:
             real = True
     cfg = {"engine": eng, "driver": "real" if real else "stub"}
@@ -53,9 +53,24 @@ def gen_cfg(rng, real_frac=0.06, allow_long=True, engines=None):
         if rng.random() < 0.3:
             cfg["extra_pad"] = rng.randint(1, 2)
             cfg["pad_coords"] = True
+    if eng == "sh_model":
+        # surface hopping on the analytic N-state model: cheap enough for thousands of crash/resume runs
+        cfg["batch"] = rng.choice([["h2o"], ["h2o", "h2o"], ["nh3", "h2o"], ["h2o", "h2co", "h2o"]])
+        cfg["n_states"] = rng.randint(2, 5)
+        cfg["model_seed"] = rng.randrange(1 << 20)
+        cfg["substeps"] = rng.choice([None, 8])
+        cfg["decohere"] = rng.random() < 0.3
+        cfg["initial_state"] = [rng.randint(1, cfg["n_states"]) for _ in cfg["batch"]]
+        cfg["steps"] = rng.randint(8, 60)
+        cfg.pop("extra_pad", None)
+        cfg.pop("pad_coords", None)
+        if rng.random() < 0.3:
+            cfg["damp"] = rng.choice([5.0, 50.0])
     S = cfg["steps"]
     cfg["dt"] = rng.choice([0.1, 0.2, 0.25, 0.5]) if not (real and eng == "sh") else 0.2
-    cfg["temp"] = rng.choice([50.0, 300.0, 300.0, 600.0])
+    if eng == "sh_model":
+        cfg["dt"] = rng.choice([0.1, 0.2])
+    cfg["temp"] = rng.choice([50.0, 300.0, 300.0, 600.0]) if eng != "sh_model" else rng.choice([3000.0, 8000.0])
     cfg["seed"] = rng.randrange(1 << 20)
     if eng in ("langevin", "xl_damp"):
         cfg["damp"] = rng.choice([5.0, 20.0, 100.0])
@@ -67,8 +82,8 @@ def gen_cfg(rng, real_frac=0.06, allow_long=True, engines=None):
     molid = sorted(rng.sample(range(nmol), rng.randint(1, nmol)))
     cad = lambda: rng.choice([0, 1, 1, 2, 3, 5]) if S < 100 else rng.choice([1, 1, 2])
     h5 = {"data": cad(), "coordinates": cad(), "velocities": cad(), "forces": cad()}
-    if eng == "sh":
-        h5["nonadiabatic"] = rng.choice([0, 1, 2])
+    if eng in ("sh", "sh_model"):
+        h5["nonadiabatic"] = rng.choice([0, 1, 2, 3])
     cfg["out"] = {
         "molid": molid,
         "print": rng.choice([0, 0, 1, 3]),
@@ -79,7 +94,7 @@ def gen_cfg(rng, real_frac=0.06, allow_long=True, engines=None):
     cfg["reuse_P"] = True if eng not in ("basic", "langevin", "exc_basic") else rng.random() < 0.8
     diatomic = any(len(mdsim.POOL[m][0]) <= 2 or m == "hcn" for m in cfg["batch"])
     u = rng.random()
-    if u < 0.6 or eng == "sh":
+    if u < 0.6 or eng in ("sh", "sh_model"):
         cfg["remove_com"] = None
     elif u < 0.85 or diatomic:
         cfg["remove_com"] = ["linear", rng.randint(1, 4)]
@@ -90,11 +105,16 @@ def gen_cfg(rng, real_frac=0.06, allow_long=True, engines=None):
     return cfg
 
 
-def gen_fault_plan(rng):
+def gen_fault_plan(rng, io_seam=True):
     n = rng.choices([1, 2, 3], [0.6, 0.3, 0.1])[0]
     plan = []
     for j in range(n):
-        kind = rng.choices(["hard@io", "hard@line", "soft@io", "soft@step", "ioerr@ckpt"], [0.45, 0.25, 0.1, 0.1, 0.1])[0]
+        if io_seam:
+            kind = rng.choices(["hard@io", "hard@line", "soft@io", "soft@step", "ioerr@ckpt"], [0.45, 0.25, 0.1, 0.1, 0.1])[0]
+        else:
+            # production HDF5 driver (sec2), real files, no I/O interception: kills at line events and
+            # exceptions at step entry only
+            kind = rng.choices(["hard@line", "soft@step"], [0.7, 0.3])[0]
         stratum = rng.choices(["ckpt", "h5flush", "xyz", "uniform"], [0.4, 0.1, 0.1, 0.4])[0]
         plan.append(
             {
@@ -120,7 +140,17 @@ def census_of(workdir, inc=0):
     return events, by_step, per
 
 
-def resolve_faults(plan, cfg, by_step, per):
+def hop_steps_of(workdir, inc=0):
+    """Steps at which the reference run logged hop events (printed by the engine at the end of run())."""
+    import re
+
+    p = os.path.join(workdir, f"stdout.{inc}.txt")
+    if not os.path.exists(p):
+        return []
+    return sorted({int(m.group(1)) for m in re.finditer(r"^\s+step\s+(\d+): S\d+ -> S\d+", open(p, errors="replace").read(), re.M)})
+
+
+def resolve_faults(plan, cfg, by_step, per, hops=()):
     """Turn the uniform draws of the plan into concrete (step, offset) positions using the census."""
     S = cfg["steps"]
     ck = int(cfg["out"]["ckpt"])
@@ -146,7 +176,13 @@ def resolve_faults(plan, cfg, by_step, per):
                     f["torn"] = fp["torn"]
             faults.append(f)
             continue  # resume point unchanged
-        if clock == "step":
+        near_hop = [h + d for h in hops for d in (1, 2) if lo <= h + d <= S]
+        if near_hop and u[2] < 0.5 and clock in ("step", "line"):
+            # surface hopping: land right after a hop, inside the post-hop hold-off window
+            s = near_hop[int(u[0] * len(near_hop))]
+            nl = max(1, per.get(s, (0, 200))[1])
+            f = {"kind": "soft", "clock": "step", "step": s, "off": 0} if clock == "step" else {"kind": "hard", "clock": "line", "step": s, "off": 1 + int(u[1] * nl)}
+        elif clock == "step":
             s = lo + int(u[0] * (S - lo + 1))
             s = max(1, min(S, s))
             f = {"kind": "soft", "clock": "step", "step": s, "off": 0}
@@ -246,7 +282,9 @@ def _execute(record, cfg, root):
     failures, stats = [], {"faults_fired": {}, "probes": {}, "vacuous": 0, "incarnations": 0}
     refdir = os.path.join(root, "ref")
     os.makedirs(refdir)
-    opts = {"io_seam": True, "line_clock": True}
+    opts = {"io_seam": bool(record.get("io_seam", True)), "line_clock": True}
+    if not opts["io_seam"]:
+        stats["probes"]["production_hdf5_driver_runs"] = 1
     ref = mdsim.run_incarnation(cfg, refdir, 0, None, "fresh", opts)
     if ref["status"] != 0:
         raise core.HarnessError(f"fault-free reference run failed: {ref.get('exc')} cfg={json.dumps(cfg)}")
@@ -267,7 +305,10 @@ def _execute(record, cfg, root):
 
     faults = record.get("faults")
     if faults is None:
-        faults = resolve_faults(record["fault_plan"], cfg, by_step, per)
+        hops = hop_steps_of(refdir) if cfg["engine"] in ("sh", "sh_model") else ()
+        if hops:
+            stats["probes"]["sh_runs_with_hops"] = 1
+        faults = resolve_faults(record["fault_plan"], cfg, by_step, per, hops)
     resolved = dict(record)
     resolved.pop("fault_plan", None)
     resolved["faults"] = faults
@@ -470,7 +511,8 @@ class C10(core.Check):
         for i in range(self.runs[tier]):
             rng = core.rng_for(seed, PROP, i)
             cfg = gen_cfg(rng, real_frac=self.real_frac[tier])
-            recs.append({"i": i, "cfg": cfg, "fault_plan": gen_fault_plan(rng)})
+            io_seam = rng.random() >= 0.15
+            recs.append({"i": i, "cfg": cfg, "io_seam": io_seam, "fault_plan": gen_fault_plan(rng, io_seam)})
         return recs
 
     def shrink_candidates(self, rec):
@@ -491,7 +533,7 @@ class C10(core.Check):
                     c.pop(k)
                 else:
                     c[k] = v
-            return {"i": rec.get("i", 0), "cfg": c, "faults": fs}
+            return {"i": rec.get("i", 0), "cfg": c, "faults": fs, "io_seam": rec.get("io_seam", True)}
 
         for j in range(len(faults)):
             if len(faults) > 1:
